@@ -13,6 +13,8 @@ pub mod acks;
 pub mod durability;
 pub mod cache;
 pub mod blocking;
+pub mod lifespan;
+pub mod deadline;
 
 #[derive(Clone, Debug, Serialize, Deserialize, PartialEq)]
 pub struct Violation {
@@ -61,6 +63,8 @@ pub fn all() -> Vec<ScenarioDef> {
     v.extend(durability::defs());
     v.extend(cache::defs());
     v.extend(blocking::defs());
+    v.extend(lifespan::defs());
+    v.extend(deadline::defs());
     v
 }
 
